@@ -6,7 +6,7 @@
 set -u
 export GOFLAGS=-mod=mod GOPROXY=off GOSUMDB=off GOTOOLCHAIN=local
 P="$1"; X="$2"; TIER="${3:-quick}"; CHK="${CHECK_PROP:-$1}"
-V="$(cd "$(dirname "$0")/.." && pwd)"; IN="/tmp/wt/$P.out"
+V="$(cd "$(dirname "$0")/.." && pwd)"; IN="/tmp/wt/$P.out${OUTSUFFIX:-}"
 [ -f "$IN/$X.diff" ] || { echo "no $IN/$X.diff"; exit 3; }
 M="$(mktemp -d /tmp/seeded.XXXXXX)"; trap 'rm -rf "$M"' EXIT
 mkdir "$M/with" "$M/without"
@@ -37,7 +37,7 @@ json.dump({"property":P,"id":f"{P}-{X}","source":"sub-agent given only the prope
  "demo":{"file":"demo_test.go","copy_to":dir,"test":tname,"fails_with_change":True,"passes_without":True},
  "baseline_tests_with_change":"402/402 stable tests pass",
  "check":{"tier":tier,"exit":int(code),"detected":int(code)==1,"first_violation":viol},
- "what_was_run":[f"tools/seeded.sh {P} {X} {tier}"],
+ "what_was_run":[f"tools/seeded.sh {P} {X} {tier}  (scratch copy of /repo HEAD + patch: go build, tools/baseline.py = 402 stable tests, demo test with/without the patch, run.sh {P} {tier} with VERIF_REPO=<copy>)"],
  "needs_to_manifest":"see notes",
  "notes":sect[:6000]}, open(D+"/meta.json","w"), indent=1)
 PY
